@@ -134,10 +134,14 @@ def match_py(items, bs):
         reach = nr
     return reach[n]
 
-def emit_c(name_items):
+def emit_c(name_items, patterns=None):
     """name_items: list of (c_name, items). returns C source of tables"""
     out = ['/* generated by re2smt.py from the regex literals in the real source -- do not edit */',
            '#include "regex_model.h"']
+    for cname, pat in (patterns or {}).items():
+        bs = pat.encode('latin1')
+        out.append('const unsigned char %s_pattern[] = {%s};' % (cname, ','.join(map(str, bs)) or '0'))
+        out.append('const unsigned %s_pattern_len = %d;' % (cname, len(bs)))
     for cname, items in name_items:
         for k, (cls, lo, hi) in enumerate(items):
             bits = ','.join('1' if b in cls else '0' for b in range(256))
